@@ -670,6 +670,7 @@ pub fn e2e_worker(ctx: &mut Ctx) {
     let mut refg = LintGroup::new_curated(dict.clone(), cd);
     refg.set_all_rules_to(Some(false));
     let mut lin = Linter::new(wd);
+    let mut lin_ign = Linter::new(wd);
     let mut lg = LintGroup::new_curated(dict.clone(), cd);
     let episodes = ctx.share(400, 12_000);
     let mut rng = ctx.rng("wasm-e2e");
@@ -792,6 +793,58 @@ pub fn e2e_worker(ctx: &mut Ctx) {
             }
             if ctx.report.samples.len() < 3 && produced.len() > js.len() {
                 ctx.report.samples.push(json!({"fam": "e2e", "text": truncate_str(&text, 200), "produced": produced.len(), "reported_js": js.len(), "reported_cli_path": cli.len()}));
+            }
+            // the same on a linter whose user has ignored lints: whatever is hidden, what is still reported is a part of
+            // what the rules produce and shares no character (a lint that lost to a hidden one stays lost or comes back
+            // whole - it may not come back across its neighbour)
+            if d % 2 == 1 {
+                let res = guarded(|| {
+                    let first = lin_ign.lint(text.clone(), Language::Plain);
+                    if first.is_empty() {
+                        return None;
+                    }
+                    let at = (eseed as usize + d) % first.len();
+                    let pick = first.into_iter().nth(at).unwrap();
+                    let pk: Key = (pick.span().start, pick.span().end, format!("{} | {}", pick.lint_kind(), pick.message()));
+                    lin_ign.ignore_lint(text.clone(), pick);
+                    let again: Vec<Key> = lin_ign.lint(text.clone(), Language::Plain).iter().map(|l| (l.span().start, l.span().end, format!("{} | {}", l.lint_kind(), l.message()))).collect();
+                    Some((pk, again))
+                });
+                match res {
+                    Ok(Some((pk, again))) => {
+                        ctx.report.count("e2e_ignore_steps", 1);
+                        let mut p2 = produced.clone();
+                        let mut used = vec![false; p2.len()];
+                        let mut bad: Option<(&'static str, String)> = None;
+                        for o in &again {
+                            match p2.iter().enumerate().find(|(i, x)| !used[*i] && *x == o) {
+                                Some((i, _)) => used[i] = true,
+                                None => {
+                                    bad = Some(("subset", format!("after one lint was ignored, {}..{} {:?} is reported; the rules do not produce it for this text", o.0, o.1, o.2)));
+                                    break;
+                                }
+                            }
+                        }
+                        p2.clear();
+                        if bad.is_none() {
+                            'outer: for a in 0..again.len() {
+                                for b in a + 1..again.len() {
+                                    if again[a].0.max(again[b].0) < again[a].1.min(again[b].1) {
+                                        bad = Some(("disjoint", format!("after {}..{} {:?} was ignored, the reported lints {}..{} and {}..{} share a character", pk.0, pk.1, pk.2, again[a].0, again[a].1, again[b].0, again[b].1)));
+                                        break 'outer;
+                                    }
+                                }
+                            }
+                        }
+                        if let Some((clause, detail)) = bad {
+                            ctx.report.finding("C13", &format!("e2e.{clause}@js-after-ignore"), text.len() + d * 1000, || json!({"episode_seed": eseed, "document_index_in_episode": d, "text": text, "ignored": [pk.0, pk.1, pk.2]}), || detail.clone());
+                        }
+                    }
+                    Ok(None) => {}
+                    Err(_) => {
+                        lin_ign = Linter::new(wd);
+                    }
+                }
             }
         }
         ctx.end_case();
